@@ -137,7 +137,18 @@ def gen_blur(rng, tie=False):
             if rng.random() < 0.4:
                 # unfolded coordinates (an `xu` trajectory): some particles whole box lengths outside the box bounds
                 pos = [[fstr(Fraction(v) + (rng.randint(-3, 3) * Fraction(L[k]) if rng.random() < 0.5 else 0)) for k, v in enumerate(row)] for row in pos]
-            frames.append({"lo": lo, "L": L, "H": H, "pos": pos})
+            fr_ = {"lo": lo, "L": L, "H": H, "pos": pos}
+            if any(Fraction(H[i][j]) != 0 for i in range(d) for j in range(i)) and rng.random() < 0.7:
+                # box bounds as the LAMMPS reader stores them for a tilted cell: the bounding box (xlo_bound = xlo + min(0, xy, xz, xy+xz), …),
+                # wider than the edge lengths — the grid spans the BOUNDS, so `boxbounds` and `boxlength` are not interchangeable here
+                blo, bhi = [], []
+                for k in range(d):
+                    t = [Fraction(H[i][k]) for i in range(k + 1, d)]
+                    sums = [Fraction(0)] + t + ([t[0] + t[1]] if len(t) == 2 else [])
+                    blo.append(fstr(Fraction(lo[k]) + min(sums)))
+                    bhi.append(fstr(Fraction(lo[k]) + Fraction(L[k]) + max(sums)))
+                fr_["blo"], fr_["bhi"] = blo, bhi
+            frames.append(fr_)
         ppp = [rng.choice(["0", "1"]) for _ in range(d)]
         if rng.random() < 0.5:
             ppp = ["1"] * d
@@ -210,7 +221,7 @@ def op_lines(c, mode):
         for n, f in enumerate(c["frames"]):
             bb = []
             for k in range(d):
-                bb += [f["lo"][k], fstr(Fraction(f["lo"][k]) + Fraction(f["L"][k]))]
+                bb += [f.get("blo", f["lo"])[k], f["bhi"][k] if "bhi" in f else fstr(Fraction(f["lo"][k]) + Fraction(f["L"][k]))]
             toks = [mode, d, ng[0], ng[1], ng[2], c["N"], C] + bb + [v for row in f["H"] for v in row] + c["ppp"] + [c["sigma"], c["cut"]] \
                 + [v for row in f["pos"] for v in row] + [v for p in c["cond"][n] for v in p]
             out.append("cgblur " + " ".join(str(t) for t in toks))
@@ -235,6 +246,7 @@ def real_call(c):
     from PyMatterSim.utils import coarse_graining as cg
     if c["kind"] == "spatial":
         x = np.array([[[float(v) for v in p] for p in f] for f in c["x"]], dtype=float).reshape([c["T"], c["N"]] + c["shape"])
+        x = common.guise(x, "spatial")          # the same numbers in another memory layout (Fortran order, reversed axes, strided view)
         tmp = tempfile.mkdtemp(prefix="c16-")
         try:
             path = os.path.join(tmp, "nb.dat")
@@ -258,10 +270,12 @@ def real_call(c):
         d = c["d"]
         snaps = []
         for n, f in enumerate(c["frames"]):
-            bb = [[float(f["lo"][k]), float(Fraction(f["lo"][k]) + Fraction(f["L"][k]))] for k in range(d)]
+            bb = [[float(f.get("blo", f["lo"])[k]), float(Fraction(f["bhi"][k]) if "bhi" in f else Fraction(f["lo"][k]) + Fraction(f["L"][k]))]
+                  for k in range(d)]
             snaps.append(_snap(n * 10, [[float(v) for v in row] for row in f["pos"]], [float(v) for v in f["L"]], bb,
                                [[float(v) for v in row] for row in f["H"]]))
         cond = np.array([[[float(v) for v in p] for p in f] for f in c["cond"]], dtype=float).reshape([c["T"], c["N"]] + c["shape"])
+        cond = common.guise(cond, "blur")
         ppp = [int(v) for v in c["ppp"]] + ([1] if c.get("ppp3") else [])
         tmp = tempfile.mkdtemp(prefix="c16-") if c.get("save") else None
         try:
@@ -279,6 +293,7 @@ def real_call(c):
     x = np.array([[float(v) for v in row] for row in c["x"]], dtype=float)
     if c["complex"]:
         x = x[:, 0::2] + 1j * x[:, 1::2]          # complex128, the dtype the routine computes in
+    x = common.guise(x, "time")
     x0 = x.copy()
     if c.get("again", True):
         # call history: the same array object has already been averaged once in this process (with another window)
